@@ -2,7 +2,7 @@
 
 (A) E-enum of CONSISTENT definitions: layouts {STANDARD only; STD+DST; DST listed first; two STANDARDs with an offset
     change; STD + DST + double DST; rename / permanent summer time (same offset, new name or kind)} x offsets (whole minutes
-    -12:00..+14:00 incl. half/quarter hours, negative DST) x onset kinds {single onset, RDATE list of 3, yearly n-th weekday rule
+    -12:00..+14:00 incl. half/quarter hours, negative DST) x onset kinds {single onset, RDATE list of 3, four further onsets in two RDATE properties of two values, yearly n-th weekday rule
     with ordinal 1/2/-1, none/UNTIL at the last onset/UNTIL one second before the next recurrence/COUNT} x TZNAME {given, absent, identical}.  Each is written as text, parsed with
     Timezone.from_ical, converted with to_tz(TZP(p), lookup_tzid=False) for p in {zoneinfo, pytz} and evaluated at every
     onset -1s/0/+1s up to 2037 and at interval mid-points against refmodel/rfc_tz (latest onset not after the instant;
@@ -44,14 +44,19 @@ class Def:
         self.tzid = tzid
         self.subs = []  # (kind, from_min, to_min, tzname|None, dtstart, extra lines, onsets_local)
 
-    def add(self, kind, frm, to, name, onsets, rule=None):
+    def add(self, kind, frm, to, name, onsets, rule=None, rdate_lines=1):
         lines = [f"BEGIN:{kind}", f"DTSTART:{fmt(onsets[0])}", f"TZOFFSETFROM:{off_text(frm)}", f"TZOFFSETTO:{off_text(to)}"]
         if name is not None:
             lines.append(f"TZNAME:{name}")
         if rule:
             lines.append("RRULE:" + rule)
-        elif len(onsets) > 1:
+        elif len(onsets) > 1 and rdate_lines == 1:
             lines.append("RDATE:" + ",".join(fmt(o) for o in onsets[1:]))
+        elif len(onsets) > 1:  # the further onsets spread over several RDATE properties, each with several values
+            rest = onsets[1:]
+            per = -(-len(rest) // rdate_lines)
+            for i in range(0, len(rest), per):
+                lines.append("RDATE:" + ",".join(fmt(o) for o in rest[i:i + per]))
         lines.append(f"END:{kind}")
         self.subs.append((kind, frm, to, name, lines, onsets))
 
@@ -123,15 +128,17 @@ def build(case):
             d.subs = [d.subs[1], d.subs[2], d.subs[0]]
         elif kind == "dst-last":
             d.subs = [d.subs[0], d.subs[2], d.subs[1]]
-    elif kind == "rdate":
+    elif kind in ("rdate", "rdate-lines"):
         _, _, std, delta, names = case
         dst = std + delta
         n1, n2 = {"given": ("XST", "XDT"), "absent": (None, None), "same": ("XT", "XT")}[names]
-        on_d = [datetime(y, 3, 20 + y % 5, 2) for y in (2001, 2002, 2004)]
-        on_s = [datetime(y, 10, 10 + y % 7, 3) for y in (2001, 2002, 2004)]
+        years = (2001, 2002, 2004) if kind == "rdate" else (2001, 2002, 2004, 2005, 2007)
+        on_d = [datetime(y, 3, 20 + y % 5, 2) for y in years]
+        on_s = [datetime(y, 10, 10 + y % 7, 3) for y in years]
+        nl = 1 if kind == "rdate" else 2
         d.add("STANDARD", std, std, n1, [datetime(2000, 1, 1)])
-        d.add("DAYLIGHT", std, dst, n2, on_d)
-        d.add("STANDARD", dst, std, n1, on_s)
+        d.add("DAYLIGHT", std, dst, n2, on_d, rdate_lines=nl)
+        d.add("STANDARD", dst, std, n1, on_s, rdate_lines=nl)
     elif kind == "two-std":
         _, _, o1, o2, named = case
         d.add("STANDARD", o1, o1, "AST" if named else None, [datetime(1990, 1, 1)])
@@ -277,7 +284,7 @@ def known_interpretation(provider, case, d, obs, pts, tz):
         # dateutil tzical zone: only definitions with negative DST, three observances per year or a change of the standard
         # offset, and only within W = max|utc offset| + max|delta| of an onset; the interior of every interval must be right
         layout = case[1]
-        neg = layout in ("std+dst", "dst-first", "dst-last", "rdate") and case[3] < 0
+        neg = layout in ("std+dst", "dst-first", "dst-last", "rdate", "rdate-lines") and case[3] < 0
         if not (neg or layout in ("double", "two-std") or (layout == "rename")):
             return None
         offs = [abs(s[1]) for s in d.subs] + [abs(s[2]) for s in d.subs]
@@ -418,6 +425,7 @@ def definitions(quick):
         for delta in DELTAS:
             for names in ("given", "absent", "same"):
                 yield ("def", "rdate", std, delta, names)
+                yield ("def", "rdate-lines", std, delta, names)
     # the same definitions with additions exporters commonly write (an X- property, a LANGUAGE parameter, a COMMENT)
     for std in STD_OFFSETS:
         for delta in DELTAS:
